@@ -41,6 +41,9 @@ type Case struct {
 	// the header / objective line, 2 last line.
 	Comment int `json:"comment,omitempty"`
 	Where   int `json:"where,omitempty"`
+	// Fixed (bf files with a wide exactly-one group): the names that literals conjoined at top level fix, with their
+	// values; satisfiability is then decided by enumerating the other names only
+	Fixed map[string]bool `json:"fixed,omitempty"`
 	// Known: "unsat" / "sat" when the verdict of a .cnf file too large for brute force is known by construction
 	Known string `json:"known,omitempty"`
 }
@@ -425,7 +428,29 @@ func checkBF(c Case, o *vf.Obs, r run, lines []string, ctxt func() string) error
 	}
 	sem := texts.SemF(c.Tree)
 	names := sem.Vars()
-	models := oracle.FormulaModels(sem, names)
+	var models []uint64
+	if len(c.Fixed) == 0 {
+		models = oracle.FormulaModels(sem, names)
+	} else {
+		o.Class("bf-wide-group")
+		var free []string
+		e := map[string]bool{}
+		for _, n := range names {
+			if v, ok := c.Fixed[n]; ok {
+				e[n] = v
+			} else {
+				free = append(free, n)
+			}
+		}
+		for m := uint64(0); m < 1<<uint(len(free)); m++ {
+			for i, n := range free {
+				e[n] = m>>uint(i)&1 == 1
+			}
+			if sem.Eval(e) {
+				models = append(models, m) // only emptiness matters below
+			}
+		}
+	}
 	var status string
 	env := map[string]bool{}
 	for _, l := range lines {
@@ -515,6 +540,14 @@ func genFlags(t *rapid.T, kind string) []string {
 		sets = append(sets, []string{"-certified"}, []string{"-certified"}, []string{"-mus"}, []string{"-mus"}, []string{"-certified", "-verbose"})
 	}
 	return append([]string{}, rapid.SampledFrom(sets).Draw(t, "flags")...)
+}
+
+func seqInts(lo, hi int) []int {
+	var s []int
+	for i := lo; i <= hi; i++ {
+		s = append(s, i)
+	}
+	return s
 }
 
 func genSyntaxTree(t *rapid.T, budget *int, depth int) *oracle.F {
@@ -660,6 +693,39 @@ func genCase(t *rapid.T) Case {
 	case "bf":
 		budget := gen.Uniform(t, 1, 15, "size")
 		c.Tree = genSyntaxTree(t, &budget, 0)
+		if gen.Chance(t, 1, 6, "wideGroup") {
+			// an exactly-one group of 10..30 names, alone / negated / next to a small formula, all names but 2..10 fixed by
+			// literals conjoined at top level
+			k := gen.Uniform(t, 10, 30, "width")
+			g := &oracle.F{Op: "unique"}
+			for i := 0; i < k; i++ {
+				g.Kids = append(g.Kids, oracle.V(fmt.Sprintf("w%d", i)))
+			}
+			var core *oracle.F = g
+			switch rapid.IntRange(0, 3).Draw(t, "wideShape") {
+			case 1:
+				core = &oracle.F{Op: "not", Kids: []*oracle.F{g}}
+			case 2:
+				core = &oracle.F{Op: "or", Kids: []*oracle.F{{Op: "not", Kids: []*oracle.F{oracle.V("a")}}, g}}
+			case 3:
+				core = &oracle.F{Op: "and", Kids: []*oracle.F{g, {Op: "implies", Kids: []*oracle.F{oracle.V("w0"), oracle.V("b")}}}}
+			}
+			free := gen.Uniform(t, 2, 10, "free")
+			perm := rapid.Permutation(seqInts(0, k-1)).Draw(t, "freeNames")
+			c.Fixed = map[string]bool{}
+			tree := core
+			for _, i := range perm[free:] {
+				n := fmt.Sprintf("w%d", i)
+				val := gen.Chance(t, 1, 15, "fixedTrue")
+				c.Fixed[n] = val
+				var lit *oracle.F = oracle.V(n)
+				if !val {
+					lit = &oracle.F{Op: "not", Kids: []*oracle.F{lit}}
+				}
+				tree = &oracle.F{Op: "and", Kids: []*oracle.F{lit, tree}}
+			}
+			c.Tree = tree
+		}
 	default:
 		switch rapid.IntRange(0, 2).Draw(t, "bad") {
 		case 0:
@@ -704,7 +770,7 @@ func TestMain(m *testing.M) {
 func init() {
 	vf.Register(vf.Sub[Case]{Name: "cli", Quick: 700, Thorough: 6000, Gen: genCase, Check: check, Floor: 0.5,
 		Classes: map[string]float64{"kind-cnf": 0.05, "kind-opb": 0.05, "kind-wcnf": 0.05, "kind-bf": 0.05, "flag-count": 0.05, "flag-certified": 0.03, "flag-mus": 0.015, "flag-cp": 0.05, "flag-verbose": 0.05},
-		Rule:    "the executable is built from the tree and run on generated .cnf (odd clause shapes, 3-SAT, pigeonhole, clique-rich formulas mostly run with -cp, pigeonhole with 5..6 holes plus padding - verdict known by construction, certificate of hundreds of lines replayed), .opb (with/without objective of either sign; knapsack equalities over 15..18 variables mostly run with -cp), .wcnf and .bf files (conventional layout, n<=10; one in eight .cnf/.opb/.wcnf files holds a comment line of 100 to 70 000 bytes made of words and numbers, as first, second or last line) x flag sets {none, -verbose, -cp, -count, -verbose -count, -cp -verbose, -certified, -certified -verbose, -mus} (-certified is not combined with -cp: a RUP certificate cannot express the PB constraints that strategy learns, and the property lists the flags separately), plus unreadable paths, an unknown suffix and syntactically broken files; stdout is parsed: exactly one status line, the v line is a total model of the file, 's UNSATISFIABLE' only for unsatisfiable files, o lines strictly decreasing and ending in the brute-force optimum attained by the printed model, -count prints exactly the model count, the -certified lines replay as a RUP refutation, the -mus DIMACS block is a minimal unsatisfiable sub-multiset of the file; -verbose only adds comment lines; bad files: exit status != 0 and no answer line; non-trivial = file with >=2 constraints (or formula of size >=4, count >=2, an extracted MUS, a bad file)"})
+		Rule:    "the executable is built from the tree and run on generated .cnf (odd clause shapes, 3-SAT, pigeonhole, clique-rich formulas mostly run with -cp, pigeonhole with 5..6 holes plus padding - verdict known by construction, certificate of hundreds of lines replayed), .opb (with/without objective of either sign; knapsack equalities over 15..18 variables mostly run with -cp), .wcnf and .bf files (one in six with an exactly-one group of 10..30 names, all names but 2..10 fixed by conjoined literals) (conventional layout, n<=10; one in eight .cnf/.opb/.wcnf files holds a comment line of 100 to 70 000 bytes made of words and numbers, as first, second or last line) x flag sets {none, -verbose, -cp, -count, -verbose -count, -cp -verbose, -certified, -certified -verbose, -mus} (-certified is not combined with -cp: a RUP certificate cannot express the PB constraints that strategy learns, and the property lists the flags separately), plus unreadable paths, an unknown suffix and syntactically broken files; stdout is parsed: exactly one status line, the v line is a total model of the file, 's UNSATISFIABLE' only for unsatisfiable files, o lines strictly decreasing and ending in the brute-force optimum attained by the printed model, -count prints exactly the model count, the -certified lines replay as a RUP refutation, the -mus DIMACS block is a minimal unsatisfiable sub-multiset of the file; -verbose only adds comment lines; bad files: exit status != 0 and no answer line; non-trivial = file with >=2 constraints (or formula of size >=4, count >=2, an extracted MUS, a bad file)"})
 }
 
 func TestCorpus(t *testing.T) { vf.Corpus(t) }
